@@ -170,6 +170,7 @@ def faulty_class(where):
 OPS = [
     ("ok", "v", ["m1", "m2", "m3"], None),
     ("ok-permuted", "v", ["m3", "m1", "m2"], None),
+    ("ok-twin", "v", ["m1", "m2", "m3twin"], None),          # another valid chain: its product cites another set of references
     ("unused", "v", ["m1", "mx", "m2", "m3"], None),
     ("unused-warning-as-error", "v", ["m1", "mx", "m2", "m3"], ("warnings-as-errors", -1)),
     ("invalid-vector", "vbad", ["m1"], None),
